@@ -9,6 +9,11 @@ Mirrors
 * `MaxScoreOverRotations.merge` (offset boxes, `lookup_table` re-mapping, strict `>`) → `merge`
 * the read / write / write sequence of one submission as separate steps, with and
   without the lock                                                                   → `Sys`, `step`, `runSched`
+* `__call__` on backends with unshared arrays (`lock_is_nullcontext`), with and without
+  `only_unique_rotations`; `__iter__`'s inversion of the identifier → matrix dict     → `submitNoLock`, `submitInv`, `invertMap`, `iterInv`
+* rotation keys = `rotation_matrix.tobytes()`, the docstring's way to read one back    → `matKey`, `keyMat`, `decodeRot`
+* `use_memmap` in `__iter__` and `merge` (files = path → array store)                  → `FS`, `iterMem`, `storeToFiles`, `mergeStepMem`, `mergeOptMem`
+* `MemmapHandler.__call__` (`array[indices] += scores` on the rotation's file)         → `memmapHandlerCall`, `memmapHandlerRun`
 
 Score values are `Int`: the harness maps the (NaN-free) floats of a case to their ranks, an
 order isomorphism, and only `>`/`=` are ever used on them.  Rotation keys are any type with
@@ -256,5 +261,203 @@ def sysInit {K : Type} (shape : List Nat) (thr : Int) (work : List (List (Arr In
 /-- every one of the first `n` processes has finished its work -/
 def allDone {K : Type} (sys : Sys K) (n : Nat) : Bool :=
   (List.range n).all (fun j => (sys.procs j).todo.isEmpty)
+
+/-! ## the path without a lock, and `only_unique_rotations`
+
+Backends whose arrays are not shared between processes (`to_sharedarr` is the identity: cupy, jax, mlx)
+make `lock_is_nullcontext` true; `__call__` then runs without the lock, and with `only_unique_rotations`
+it keeps an identifier → matrix dict that `__iter__` inverts. -/
+
+/-- `rotation_index = len(mapping); rotation_index = mapping.setdefault(bytes, rotation_index)`, then the
+backend's update -/
+def submitNoLock {K : Type} [DecidableEq K] (s : State K) (a : Arr Int) (k : K) : State K :=
+  let i := s.table.length
+  let j := match lookup k s.table with
+    | some j => j
+    | none => i
+  let t := match lookup k s.table with
+    | some _ => s.table
+    | none => s.table ++ [(k, i)]
+  let mr := maxUpdate a s.scores s.rots j
+  ⟨mr.1, mr.2, t⟩
+
+def runNoLock {K : Type} [DecidableEq K] (shape : List Nat) (thr : Int) (h : List (Arr Int × K)) : State K :=
+  h.foldl (fun s ak => submitNoLock s ak.1 ak.2) (init shape thr)
+
+/-- python `d[key] = value` on an insertion-ordered dict: an existing key keeps its position -/
+def dictSet {A B : Type} [DecidableEq A] : List (A × B) → A → B → List (A × B)
+  | [], k, v => [(k, v)]
+  | (k', v') :: t, k, v => if k' = k then (k', v) :: t else (k', v') :: dictSet t k v
+
+/-- analyzer on the `_inversion_mapping` path: `rotation_mapping` maps identifier → matrix -/
+structure IState (K : Type) where
+  scores : Arr Int
+  rots : Arr Int
+  imap : List (Nat × K)
+
+def initInv {K : Type} (shape : List Nat) (thr : Int) : IState K :=
+  ⟨Arr.ofFn shape (fun _ => thr), Arr.ofFn shape (fun _ => -1), []⟩
+
+/-- `rotation_index = len(mapping); mapping[rotation_index] = rotation_matrix`, then the backend's update -/
+def submitInv {K : Type} (s : IState K) (a : Arr Int) (k : K) : IState K :=
+  let i := s.imap.length
+  let mr := maxUpdate a s.scores s.rots i
+  ⟨mr.1, mr.2, dictSet s.imap i k⟩
+
+def runInv {K : Type} (shape : List Nat) (thr : Int) (h : List (Arr Int × K)) : IState K :=
+  h.foldl (fun s ak => submitInv s ak.1 ak.2) (initInv shape thr)
+
+/-- `{be.tobytes(v): k for k, v in self.rotation_mapping.items()}` -/
+def invertMap {K : Type} [DecidableEq K] (m : List (Nat × K)) : Table K :=
+  m.foldl (fun t ik => dictSet t ik.2 ik.1) []
+
+/-- `tuple(analyzer)` on the `_inversion_mapping` path -/
+def iterInv {K : Type} [DecidableEq K] (s : IState K) (offset : List Nat) : Store K :=
+  ⟨s.scores, offset, s.rots, invertMap s.imap⟩
+
+/-! ## rotation keys are the bytes of the matrix; reading a rotation back from a result
+
+A matrix is a list of rows of machine words (`W`: one float of the matrix' dtype); `tobytes()` lists them in
+C order, `np.frombuffer(key, dtype).reshape(n, n)` cuts the key into rows again. -/
+
+/-- `rotation_matrix.tobytes()` -/
+def matKey {W : Type} (m : List (List W)) : List W := m.flatten
+
+def rowsOf {W : Type} (n : Nat) : Nat → List W → List (List W)
+  | 0, _ => []
+  | r + 1, l => l.take n :: rowsOf n r (l.drop n)
+
+/-- `np.frombuffer(key, dtype).reshape(n, n)` -/
+def keyMat {W : Type} (n : Nat) (key : List W) : List (List W) := rowsOf n n key
+
+/-- an `n × n` matrix -/
+def IsMat {W : Type} (n : Nat) (m : List (List W)) : Prop := m.length = n ∧ ∀ row ∈ m, row.length = n
+
+instance {W : Type} (n : Nat) (m : List (List W)) : Decidable (IsMat n m) := by
+  unfold IsMat; exact inferInstance
+
+/-- the procedure of the class docstring: the key whose value is the identifier, read as a matrix -/
+def decodeRot {W : Type} (n : Nat) (t : Table (List W)) (r : Int) : Option (List (List W)) :=
+  (keyOf t r).map (keyMat n)
+
+/-! ## `use_memmap`: the arrays of a result live in files
+
+A file system is a list of file contents, a path is a position in it, a fresh name
+(`generate_tempfile_name`) is the next free position. -/
+
+abbrev FS := List (Arr Int)
+
+def FS.read (fs : FS) (p : Nat) : Arr Int := fs.getD p ⟨[], #[]⟩
+def FS.write (fs : FS) (p : Nat) (a : Arr Int) : FS := fs.set p a
+/-- `array_to_memmap(arr)` / `np.memmap(generate_tempfile_name(), mode="w+")` + fill: contents and the new path -/
+def FS.create (fs : FS) (a : Arr Int) : FS × Nat := (fs ++ [a], fs.length)
+
+/-- a store whose two arrays are memory maps of files -/
+structure MStore (K : Type) where
+  scores : Nat
+  offset : List Nat
+  rots : Nat
+  table : Table K
+
+/-- what one reads through the memory maps -/
+def MStore.load {K : Type} (fs : FS) (m : MStore K) : Store K :=
+  ⟨fs.read m.scores, m.offset, fs.read m.rots, m.table⟩
+
+/-- `tuple(analyzer)` with `use_memmap=True`: both arrays are written to fresh files and mapped read-only -/
+def iterMem {K : Type} (fs : FS) (s : State K) (offset : List Nat) : FS × MStore K :=
+  let c1 := fs.create s.scores
+  let c2 := c1.1.create s.rots
+  (c2.1, ⟨c1.2, offset, c2.2, s.table⟩)
+
+/-- the same for a result that is already a tuple (`array_to_memmap` on both arrays) -/
+def storeToFiles {K : Type} (fs : FS) (s : Store K) : FS × MStore K :=
+  let c1 := fs.create s.scores
+  let c2 := c1.1.create s.rots
+  (c2.1, ⟨c1.2, s.offset, c2.2, s.table⟩)
+
+/-- several analyzers hand out their memory maps one after the other -/
+def iterMemAll {K : Type} (fs : FS) : List (Store K) → FS × List (MStore K)
+  | [] => (fs, [])
+  | s :: ss =>
+    let c := storeToFiles fs s
+    let r := iterMemAll c.1 ss
+    (r.1, c.2 :: r.2)
+
+/-- one pass of the second loop of `merge(use_memmap=True)`: the output files are re-opened `r+`, updated through
+the same comparison as in memory, flushed -/
+def mergeStepMem {K : Type} [DecidableEq K] (out : List Nat) (new : Table K) (po pr : Nat) (fs : FS)
+    (m : MStore K) : FS :=
+  let r := mergeStep out new (fs.read po, fs.read pr) (m.load fs)
+  (fs.write po r.1).write pr r.2
+
+/-- the general path of `merge(use_memmap=True)` -/
+def mergeManyMem {K : Type} [DecidableEq K] (thr : Int) (fs : FS) (ms : List (MStore K)) : FS × MStore K :=
+  let ss := ms.map (MStore.load fs)
+  let out := outShape ss
+  let new := newTable ss
+  let c1 := fs.create (Arr.ofFn out (fun _ => thr))
+  let c2 := c1.1.create (Arr.ofFn out (fun _ => -1))
+  (ms.foldl (mergeStepMem out new c1.2 c2.2) c2.1, ⟨c1.2, List.replicate out.length 0, c2.2, new⟩)
+
+/-- `merge(param_stores, use_memmap=True)` as called (`None` entries, single-entry shortcut) -/
+def mergeOptMem {K : Type} [DecidableEq K] (thr : Int) (fs : FS) (ps : List (Option (MStore K))) :
+    FS × Option (MStore K) :=
+  match ps with
+  | [p] => (fs, p)
+  | _ =>
+    match ps.filterMap id with
+    | [] => (fs, none)
+    | ms => ((mergeManyMem thr fs ms).1, some (mergeManyMem thr fs ms).2)
+
+/-! ## `MemmapHandler`: one file per rotation, `array[indices] += scores` -/
+
+/-- `MemmapHandler.__call__`: the file of the rotation (`_path_translation`) is opened `r+` and the submitted
+array is added to the box `[start, start+shape)` of it; `none` when the rotation has no file (`KeyError`) -/
+def memmapHandlerCall {K : Type} [DecidableEq K] (paths : Table K) (starts : List Nat) (fs : FS)
+    (a : Arr Int) (k : K) : Option FS :=
+  match lookup k paths with
+  | none => none
+  | some p =>
+    let f := fs.read p
+    some (fs.write p (Arr.ofFn f.shape (fun idx =>
+      match localIdx starts a.shape idx with
+      | some q => f.getD idx 0 + a.getD q 0
+      | none => f.getD idx 0)))
+
+def memmapHandlerRun {K : Type} [DecidableEq K] (paths : Table K) (starts : List Nat) (fs : FS)
+    (h : List (Arr Int × K)) : Option FS :=
+  h.foldl (fun o ak => o.bind (fun fs => memmapHandlerCall paths starts fs ak.1 ak.2)) (some fs)
+
+/-- specification side: what a history adds to voxel `idx` of the file `p` -/
+def handlerAdded {K : Type} [DecidableEq K] (paths : Table K) (starts : List Nat) (h : List (Arr Int × K))
+    (p : Nat) (idx : List Nat) : Int :=
+  match h with
+  | [] => 0
+  | ak :: t =>
+    (if lookup ak.2 paths = some p then
+      (match localIdx starts ak.1.shape idx with
+        | some q => ak.1.getD q 0
+        | none => 0)
+     else 0) + handlerAdded paths starts t p idx
+
+/-! ## specification side: everything submitted to a tiling, as one history of one analyzer of the merged volume -/
+
+/-- first-seen numbering of a sequence of rotations -/
+def tableOf {K : Type} [DecidableEq K] (t0 : Table K) (ks : List K) : Table K := ks.foldl addKey t0
+
+/-- keys of everything submitted through the tiles, in the order of the tiles -/
+def allKeys {K : Type} (ts : List (Tile K)) : List K := ts.flatMap (fun t => t.hist.map Prod.snd)
+
+/-- a partial array placed in the larger volume, the threshold outside its box -/
+def embed (thr : Int) (out off shp : List Nat) (a : Arr Int) : Arr Int :=
+  Arr.ofFn out (fun p => match localIdx off shp p with
+    | some q => a.getD q 0
+    | none => thr)
+
+def tileEmb {K : Type} (thr : Int) (out : List Nat) (t : Tile K) : List (Arr Int × K) :=
+  t.hist.map (fun ak => (embed thr out t.offset t.shape ak.1, ak.2))
+
+/-- everything submitted to any tile, as submissions to one analyzer of the whole volume, tile after tile -/
+def bigHist {K : Type} (thr : Int) (out : List Nat) (ts : List (Tile K)) : List (Arr Int × K) := ts.flatMap (tileEmb thr out)
 
 end Pm.C04
